@@ -1,4 +1,4 @@
-import MosnVerif.Lemmas.FilterAnnot
+import MosnVerif.Lemmas.FilterComplete
 /-!
 # C14 — stream filters run in order, and a denied request is never forwarded (property theorems only)
 
@@ -80,8 +80,15 @@ theorem single_reply_partial (c : Cfg) (ha : answeredIn (trace c)) (hnt : ¬ ter
       backPart (trace c) = .spass 0 (sendRun c.send 0) :: replyEvs r code := by
   exact single_reply_of c (final c) (run_Ginv c fuel init (init_Ginv c)) (final_halted c) ha hnt hno hex
 
+/-- **complete (no filter is skipped)**: the first invocation of a stream is of the first filter of its phase and the
+earlier phases have no filters; inside a pass the next invocation is of the NEXT filter of the phase; when the phase
+changes, a pass whose last filter continued had reached the last filter of its phase, the new pass starts at the FIRST
+filter of its phase and the phases in between have no filters; and a request that reaches the pool has had all three
+passes.  Holds unconditionally after the second `fix:` (the kept cursor only resumes a pass of the same phase). -/
+theorem complete (c : Cfg) (n : Nat) : completeOK c (flat (run c n init).trace) = true := completeOK_run c n
+
 /-- **the executable predicate holds of the model** (safety part: order / once / resume in their token-list form,
-no receiver filter after the response side started, deny ⇒ not forwarded, sender-once) — at every point of every run.
+completeness, no receiver filter after the response side started, deny ⇒ not forwarded, sender-once) — at every point of every run.
 `specSafety` is the function `mosnmodel` evaluates on the IMPLEMENTATION's tokens of every generated case. -/
 theorem spec_safety_holds_on_model (c : Cfg) (n : Nat) : specSafety c (flat (run c n init).trace) = true :=
   specSafety_run c n
